@@ -667,8 +667,9 @@ def o_c08_faults(params, cases, outs):
     i = 1
     while i + 1 < len(outs) - 1:
         hard, intr = outs[i], outs[i + 1]
-        if not hard.startswith("err "):
-            return "a hard read failure did not surface as an error: %s -> %s" % (cases[i][:120], hard[:160])
+        if hard != "err sections:io":
+            # the file is well formed, so nothing but the failing read can be wrong with what the builder saw
+            return "a hard read failure did not surface as an I/O error of the build: %s -> %s" % (cases[i][:120], hard[:160])
         if intr != base:
             return "an interrupted (retried) read changed the result: %s vs %s" % (intr[:120], base[:120])
         i += 2
@@ -712,7 +713,8 @@ def gen_C12(rng, tier):
                     if cur:
                         secs.append(cur); cur = []
                 else:
-                    cur.append(t.decode("latin-1"))
+                    # a line ending in CR is not the same line under LF and under CRLF termination: keep CRs interior here
+                    cur.append(t.rstrip(b"\r").decode("latin-1") or "x")
             if cur:
                 secs.append(cur)
             qs = []
